@@ -861,6 +861,57 @@ func (g *Gen) rangeInstr(x *ssa.Range, st *State, r string) {
 	// iteration over a map or string: abstract iterator; Next yields arbitrary members
 	g.vals[x] = Val{T: "0", Sort: "Int", GoT: x.X.Type()}
 	g.stats.Abstractions["range-iterator"]++
+	m, isMap := x.X.Type().Underlying().(*types.Map)
+	if !isMap || len(g.inlining) > 0 {
+		return
+	}
+	// Map iteration keeps a ghost set of the keys produced so far (contracts: visited(n, k) for the n-th map
+	// range of the function in source order). It lives, as a key set, in a ghost object allocated here; the
+	// domain of the map at this point is remembered for the completeness fact at the end of the iteration.
+	dk, _, _ := g.mapHeapKinds(m)
+	ks := g.u.sortOf(m.Key())
+	sk := g.seenKind(m)
+	loc := g.fresh("rseen")
+	g.declare(loc, "Loc")
+	g.assume("(= " + loc + " (mkloc " + st.A + " pnil))")
+	an := g.fresh("A")
+	g.define(an, "Int", "(+ "+st.A+" 1)")
+	st.A = an
+	g.setHeap(st, sk, fmt.Sprintf("(store %s %s ((as const (Array %s Bool)) false))", g.heap(st, sk), loc, ks))
+	d0 := g.fresh("rdom0")
+	g.declare(d0, "(Array "+ks+" Bool)")
+	g.assume("(= " + d0 + " (select " + g.heap(st, dk) + " " + g.val(x.X).T + "))")
+	if g.mrSeen == nil {
+		g.mrSeen = map[*ssa.Range]string{}
+		g.mrDom0 = map[*ssa.Range]string{}
+	}
+	g.mrSeen[x] = loc
+	g.mrDom0[x] = d0
+}
+
+// seenKind: the ghost heap kind that holds the produced-keys sets of the ranges over maps with this key sort
+// (kept apart from the maps' own domain heap, so that iterating changes nothing the map contracts speak about).
+func (g *Gen) seenKind(m *types.Map) string {
+	ks := g.u.sortOf(m.Key())
+	k := "mrseen_" + sanitize(ks)
+	g.u.kindSort[k] = "(Array " + ks + " Bool)"
+	return k
+}
+
+// mapRanges: the map range instructions of the function under contract in source order.
+func (g *Gen) mapRanges() []*ssa.Range {
+	var rs []*ssa.Range
+	for _, b := range g.topFn.Blocks {
+		for _, ins := range b.Instrs {
+			if r, ok := ins.(*ssa.Range); ok {
+				if _, isMap := r.X.Type().Underlying().(*types.Map); isMap {
+					rs = append(rs, r)
+				}
+			}
+		}
+	}
+	sort.SliceStable(rs, func(a, b int) bool { return rs[a].Pos() < rs[b].Pos() })
+	return rs
 }
 
 func (g *Gen) nextInstr(x *ssa.Next, st *State, r string) {
@@ -873,6 +924,30 @@ func (g *Gen) nextInstr(x *ssa.Next, st *State, r string) {
 		mv := g.val(rng.X).T
 		dk, vk, _ := g.mapHeapKinds(m)
 		g.assume("(=> " + ok + " (and (not (= " + mv + " nilloc)) (select (select " + g.heap(st, dk) + " " + mv + ") " + k.T + ")))")
+		if loc, have := g.mrSeen[rng]; have {
+			// no key is produced twice; a produced key joins the ghost set; when the iteration ends, every key
+			// that was in the map when it started and still is has been produced - provided the loop cannot put
+			// keys into a map of this type (an entry created during the iteration may be skipped, so may one
+			// that was removed and created again)
+			sk := g.seenKind(m)
+			h := g.heap(st, sk)
+			seen := "(select " + h + " " + loc + ")"
+			g.assume("(=> " + ok + " (not (select " + seen + " " + k.T + ")))")
+			noIns := false
+			for _, li := range g.inLoop[x.Block()] {
+				if li.head == x.Block() {
+					noIns = !li.allHav && !li.mapIns[dk]
+				}
+			}
+			if noIns {
+				ks := g.u.sortOf(m.Key())
+				cur := "(select " + g.heap(st, dk) + " " + mv + ")"
+				g.assume("(=> (not " + ok + ") (forall ((q!k " + ks + ")) (! (=> (and (select " + cur + " q!k) (select " + g.mrDom0[rng] + " q!k)) (select " + seen + " q!k)) :pattern ((select " + cur + " q!k)) :pattern ((select " + seen + " q!k)))))")
+			} else {
+				g.stats.Abstractions["map-range-without-completeness"]++
+			}
+			g.setHeap(st, sk, "(ite "+ok+" (store "+h+" "+loc+" (store "+seen+" "+k.T+" true)) "+h+")")
+		}
 		vt := tt.At(2).Type()
 		if b, isB := vt.Underlying().(*types.Basic); isB && b.Kind() == types.Invalid {
 			v = Val{T: "0", Sort: "Int"}
